@@ -28,6 +28,9 @@ def showErr : Err → String
   | .tooMany a b => s!"many:{a}:{b}"
   | .duplicate a b => s!"dup:{a}:{b}"
   | .missing a b => s!"miss:{a}:{b}"
+  | .testNumberTooLarge => "numlarge"
+  | .planCountTooLarge => "planlarge"
+  | .versionTooLarge => "verlarge"
 
 def showEvent : Event → String
   | .plan p => s!"P:{p.numTests}:{boolStr p.late}:{boolStr p.skipped}:{showOpt p.explanation}"
@@ -71,7 +74,10 @@ def handle (cmd : String) (fs : List String) : String :=
     s!"{showOpt (yamlStart l)}:{boolStr (yamlEnd l)}"
   | "ptest", [ok, num, name, dir, expl] =>
     showEvents (parseTest (ok == "1") num.toNat! (decodeStr name) (parseOpt dir) (parseOpt expl))
-  | "parse", [n, ls] => showEvents (parse (decodeLines n ls))
+  | "parse", [n, ls] =>
+    match parseE (decodeLines n ls) with
+    | .ok evs => showEvents evs
+    | .error .valueError => "RAISE:ValueError"
   | "state", [n, ls] => showState (run PState.init (decodeLines n ls)).1
   | "verdict", [ef, inter, rc, n, ls] =>
     (verdict (ef == "1") (inter == "1") rc.toInt! (parse (decodeLines n ls))).name
